@@ -373,6 +373,11 @@ def gen_gfa2(rng, k):
         if rng.random() < k.get("p_counts", 0.2):
             tags.append("%s:i:%d" % (rng.choice(["RC", "FC", "KC"]), rng.randint(0, 200)))
         tags += gen_tags(rng, k)
+        if k.get("taglike_seq") and seq != "*" and n >= 6 and rng.random() < 0.2:
+            # any printable string is a GFA2 sequence, also one that looks like a tag
+            seq = rng.choice(["AC:Z:", "NN:A:", "xy:i:"]) + seq[5:]
+        if k.get("ln_tag") and rng.random() < 0.2:
+            tags.append("LN:i:%d" % rng.randint(0, 50))     # not predefined for GFA2 segments: an ordinary tag
         S.append("\t".join(["S", s, str(n), seq] + tags))
     E = []
     enames = []
